@@ -1,16 +1,11 @@
 #![no_main]
 use libfuzzer_sys::fuzz_target;
-use swiftmt_verif::lib_api::MSGS;
-use swiftmt_verif::props::c07::TotalCase;
 mod common;
 
-// byte 0 selects the requested type and the entry kind, the rest is the message text
+// input decoding: swiftmt_verif::props::c07::decode_fuzz_input("fz_message", bytes)
 fuzz_target!(|data: &[u8]| {
-    if data.len() < 2 {
-        return;
+    let _ = common::ctx();
+    if let Some(case) = swiftmt_verif::props::c07::decode_fuzz_input("fz_message", data) {
+        common::judge(case);
     }
-    let mt = MSGS[data[0] as usize % MSGS.len()].mt;
-    let text = String::from_utf8_lossy(&data[1..]).to_string();
-    let kind = if data[0] >= 128 { "block4" } else { "message" };
-    common::judge(TotalCase { kind: kind.into(), target: mt.to_string(), input: text, mutation: "libfuzzer".into() });
 });
